@@ -1,129 +1,72 @@
 /*@unit {
  'kind': 'proof', 'mode': 'legacy',
- 'functions': ['path_remove_prefix', 'path_compare_node', 'path_iterate', 'path_skip_slashes_and_single_dots', 'path_is_single_dot'],
+ 'functions': ['path_remove_prefix'],
+ 'replace': ['path_compare_node', 'path_iterate'],
  'include': ['/verif/units/C19/cxxshim'],
- 'clauses': 'path_remove_prefix(path, prefix) walks both strings node by node (component-wise reference): the c-th node pair starts at (0,0) for c = 0; '
-            'the two nodes of every consumed pair are equal byte for byte and end together; the next pair starts behind the node after nothing but '
-            'slashes and single-dot components, at the start of a real component or the terminator; the walk ends when both strings are exhausted or '
-            'the current nodes differ; the result is the position reached in path (inside the string); reads only bytes of the two strings',
+ 'extract': [{'out': 'cxx/path_remove_prefix.c',
+              'pieces': [{'op': 'glue', 'text': '// path_remove_prefix alone, copied by position from igris/util/pathops.h: its helpers are declared with their contracts only\n'
+                                                 '// (contracts/c19_path_contracts.h), so that the loop-contract pass does not inline their loops\n'
+                                                 '#include "c19_path_contracts.h"'},
+                         {'op': 'func', 'file': 'igris/util/pathops.h', 'name': 'path_remove_prefix', 'std': []}]}],
+ 'clauses': 'path_remove_prefix(path, prefix) is the node-by-node walk of the component-wise reference: starting at the beginning of both strings, '
+            'while not both are exhausted the current nodes are compared (path_compare_node); equal: both cursors leave their node (path_iterate); '
+            'different: stop.  Proved: every cursor handed to the helpers is a valid position of its string and never NULL; the walk terminates; '
+            'it ends with both strings exhausted or at the first pair that differs; all earlier pairs compared equal; the result is the path cursor, '
+            'inside the string.  What "compare equal" and "leave the node" mean byte for byte is proved for the real helpers by the units '
+            'path_compare_node and path_iterate (clauses C19_CMP_POST / C19_IT_POST); this unit uses their consequences C19_*_POST_LIGHT as contracts. '
+            'The function text is cut out of pathops.h mechanically on every run (extract).',
  'kf': ['C19_path_single_dot_overread', 'C19_path_remove_prefix_null'],
  'inject': [
-   {'file': 'igris/util/pathops.h', 'func': 'path_skip_slashes_and_single_dots', 'loop': 0, 'expect': 'while (*path ==',
-    'assigns': 'path',
-    'invariants': ['__CPROVER_same_object(path, g_it0) && C19_OFF(g_it0, 0) <= C19_OFF(path, 0) && C19_OFF(path, 0) <= g_itL',
-                   '(C19_OFF(g_it0, 0) <= g_kx && g_kx < C19_OFF(path, 0)) ==> C19_PSKIP(path - C19_OFF(path, 0), g_kx)'],
-    'decreases': 'g_itL - C19_OFF(path, 0)'},
-   {'file': 'igris/util/pathops.h', 'func': 'path_iterate', 'at': 'func-begin', 'ghost': 'g_it0 = path; g_mid = C19_OFF(path, 0);'},
-   {'file': 'igris/util/pathops.h', 'func': 'path_iterate', 'at': 'before', 'anchor': 'while (*path == \'/\' || path_is_single_dot(path))',
-    'ghost': 'g_mid = C19_OFF(path, 0);'},
-   {'file': 'igris/util/pathops.h', 'func': 'path_iterate', 'loop': 0, 'expect': 'while (*path && *path !=',
-    'assigns': 'path',
-    'invariants': ['__CPROVER_same_object(path, g_it0) && C19_OFF(g_it0, 0) <= C19_OFF(path, 0) && C19_OFF(path, 0) <= g_itL',
-                   '(C19_OFF(g_it0, 0) <= g_kx && g_kx < C19_OFF(path, 0)) ==> !C19_PEND((path - C19_OFF(path, 0))[g_kx])',
-                   'C19_OFF(path, 0) - C19_OFF(g_it0, 0) <= g_ci',
-                   ],
-    'decreases': 'g_itL - C19_OFF(path, 0)'},
-   {'file': 'igris/util/pathops.h', 'func': 'path_iterate', 'loop': 1, 'expect': 'while (*path ==',
-    'assigns': 'path',
-    'invariants': ['__CPROVER_same_object(path, g_it0) && g_mid <= C19_OFF(path, 0) && C19_OFF(path, 0) <= g_itL',
-                   '(g_mid <= g_kx && g_kx < C19_OFF(path, 0)) ==> C19_PSKIP(path - C19_OFF(path, 0), g_kx)'],
-    'decreases': 'g_itL - C19_OFF(path, 0)'},
-   {'file': 'igris/util/pathops.h', 'func': 'path_compare_node', 'at': 'func-begin', 'ghost': 'g_a0 = a; g_b0 = b;'},
-   {'file': 'igris/util/pathops.h', 'func': 'path_compare_node', 'at': 'before', 'anchor': 'return *a < *b ? -1 : 1;', 'ghost': 'g_i = (size_t)(a - g_a0);'},
-   {'file': 'igris/util/pathops.h', 'func': 'path_compare_node', 'at': 'before', 'anchor': 'if (*a == \'\\0\' || *a == \'/\')', 'ghost': 'g_i = (size_t)(a - g_a0);'},
-   {'file': 'igris/util/pathops.h', 'func': 'path_compare_node', 'loop': 0, 'expect': 'while (*a !=',
-    'assigns': 'a, b, g_i',
-    'invariants': ['__CPROVER_same_object(a, g_a0) && __CPROVER_same_object(b, g_b0)',
-                   'C19_OFF(g_a0, 0) <= C19_OFF(a, 0) && C19_OFF(a, 0) <= g_LP && C19_OFF(g_b0, 0) <= C19_OFF(b, 0) && C19_OFF(b, 0) <= g_LQ',
-                   'C19_OFF(a, 0) - C19_OFF(g_a0, 0) == C19_OFF(b, 0) - C19_OFF(g_b0, 0)',
-                   'g_k < C19_OFF(a, 0) - C19_OFF(g_a0, 0) ==> (g_a0[g_k] == g_b0[g_k] && !C19_PEND(g_a0[g_k]))',
-                   'C19_OFF(a, 0) > C19_OFF(g_a0, 0) ==> (!C19_PEND(g_a0[0]) && !C19_PEND(g_b0[0]))'],
-    'decreases': 'g_LP - C19_OFF(a, 0)'},
-   {'file': 'igris/util/pathops.h', 'func': 'path_remove_prefix', 'at': 'func-begin', 'ghost': 'g_P = path; g_Q = prefix;'},
-   {'file': 'igris/util/pathops.h', 'func': 'path_remove_prefix', 'at': 'body-begin', 'loop': 0,
-    'ghost': 'if (g_cnt == g_c) { g_sa = (size_t)(path - g_P); g_sb = (size_t)(prefix - g_Q); } if (g_cnt == g_c + 1) { g_sa1 = (size_t)(path - g_P); g_sb1 = (size_t)(prefix - g_Q); } g_cnt++;'},
-   {'file': 'igris/util/pathops.h', 'func': 'path_remove_prefix', 'at': 'after', 'anchor': 'int cmp = path_compare_node(path, prefix);',
-    'ghost': 'g_cur = g_i; if (g_cnt == g_c + 1) g_ci = g_i;'},
-   {'file': 'igris/util/pathops.h', 'func': 'path_remove_prefix', 'at': 'before', 'anchor': 'path = path_iterate(path);', 'ghost': 'g_kx = g_kp; g_itL = g_LP; g_done++;'},
-   {'file': 'igris/util/pathops.h', 'func': 'path_remove_prefix', 'at': 'before', 'anchor': 'prefix = path_iterate(prefix);', 'ghost': 'g_kx = g_kq; g_itL = g_LQ;'},
-   {'file': 'igris/util/pathops.h', 'func': 'path_remove_prefix', 'at': 'before', 'anchor': 'break;', 'ghost': 'g_differ = 1;'},
-   {'file': 'igris/util/pathops.h', 'func': 'path_remove_prefix', 'at': 'before', 'anchor': 'return path;', 'ghost': 'g_endq = (size_t)(prefix - g_Q);'},
-   {'file': 'igris/util/pathops.h', 'func': 'path_remove_prefix', 'loop': 0, 'expect': 'while (*prefix != 0 || *path != 0)',
-    'assigns': 'path, prefix, g_a0, g_b0, g_i, g_it0, g_mid, g_kx, g_itL, g_cnt, g_done, g_sa, g_sb, g_sa1, g_sb1, g_ci, g_cur, g_differ',
+   {'file': 'overlay:cxx/path_remove_prefix.c', 'func': 'path_remove_prefix', 'at': 'func-begin', 'ghost': 'g_P = path; g_Q = prefix;'},
+   {'file': 'overlay:cxx/path_remove_prefix.c', 'func': 'path_remove_prefix', 'at': 'body-begin', 'loop': 0, 'ghost': 'g_cnt++;'},
+   {'file': 'overlay:cxx/path_remove_prefix.c', 'func': 'path_remove_prefix', 'at': 'before', 'anchor': 'path = path_iterate(path);', 'ghost': 'g_done++;'},
+   {'file': 'overlay:cxx/path_remove_prefix.c', 'func': 'path_remove_prefix', 'at': 'before', 'anchor': 'break;', 'ghost': 'g_differ = 1;'},
+   {'file': 'overlay:cxx/path_remove_prefix.c', 'func': 'path_remove_prefix', 'at': 'before', 'anchor': 'return path;', 'ghost': 'g_endq = (size_t)(prefix - g_Q);'},
+   {'file': 'overlay:cxx/path_remove_prefix.c', 'func': 'path_remove_prefix', 'loop': 0, 'expect': 'while (*prefix != 0 || *path != 0)',
+    'assigns': 'path, prefix, g_cnt, g_done, g_differ',
     'invariants': [
       'path != NULL && prefix != NULL && __CPROVER_same_object(path, g_P) && __CPROVER_same_object(prefix, g_Q)',
-      'C19_OFF(g_P, 0) == 0 && C19_OFF(g_Q, 0) == 0 && C19_OFF(path, 0) <= g_LP && C19_OFF(prefix, 0) <= g_LQ',
+      'C19_POFF(g_P) == 0 && C19_POFF(g_Q) == 0 && C19_POFF(path) <= g_LP && C19_POFF(prefix) <= g_LQ',
       'g_differ == 0 && g_done == g_cnt',
-      'g_cnt == 0 ? (path == g_P && prefix == g_Q) : (!C19_PSKIPX(path) && !C19_PSKIPX(prefix))',
-      'g_cnt > g_c ==> (g_sa + g_ci <= g_LP && g_sb + g_ci <= g_LQ && C19_PEND(g_P[g_sa + g_ci]) && C19_PEND(g_Q[g_sb + g_ci]))',
-      '(g_cnt > g_c && g_k < g_ci) ==> (g_P[g_sa + g_k] == g_Q[g_sb + g_k] && !C19_PEND(g_P[g_sa + g_k]))',
-      'g_cnt > g_c ==> (g_c == 0 ? (g_sa == 0 && g_sb == 0) : 1)',
-      'g_cnt == g_c + 1 ==> (g_sa + g_ci <= C19_OFF(path, 0) && g_sb + g_ci <= C19_OFF(prefix, 0))',
-      '(g_cnt == g_c + 1 && g_sa + g_ci <= g_kp && g_kp < C19_OFF(path, 0)) ==> C19_PSKIP(g_P, g_kp)',
-      '(g_cnt == g_c + 1 && g_sb + g_ci <= g_kq && g_kq < C19_OFF(prefix, 0)) ==> C19_PSKIP(g_Q, g_kq)',
-      'g_cnt > g_c + 1 ==> (g_sa + g_ci <= g_sa1 && g_sa1 <= g_LP && g_sb + g_ci <= g_sb1 && g_sb1 <= g_LQ && !C19_PSKIPX(g_P + g_sa1) && !C19_PSKIPX(g_Q + g_sb1))',
-      '(g_cnt > g_c + 1 && g_sa + g_ci <= g_kp && g_kp < g_sa1) ==> C19_PSKIP(g_P, g_kp)',
-      '(g_cnt > g_c + 1 && g_sb + g_ci <= g_kq && g_kq < g_sb1) ==> C19_PSKIP(g_Q, g_kq)',
+      'g_cnt == 0 ? (path == g_P && prefix == g_Q) : (path[0] != 47 && prefix[0] != 47)',
     ],
-    'decreases': '(g_LP - C19_OFF(path, 0)) + (g_LQ - C19_OFF(prefix, 0))'},
+    'decreases': '(g_LP - C19_POFF(path)) + (g_LQ - C19_POFF(prefix))'},
  ],
- 'ghost_calls': ['C19_OFF'],
  'witness': {'unwind': 9},
 } @*/
-#include "c19_path.h"
-/* the byte at p is a slash or starts a single-dot component */
-#define C19_PSKIPX(p) C19_PSKIP(p, 0)
+#include "c19_path_contracts.h"
 size_t g_LP, g_LQ;            /* index of the terminator of path / prefix */
-size_t g_k, g_kp, g_kq;       /* ghost indices: node-relative, absolute in path, absolute in prefix */
-size_t g_c;                   /* ghost: number of the node pair looked at */
-size_t g_cnt, g_done;         /* node pairs started / consumed */
-size_t g_sa, g_sb, g_ci;      /* pair c: start in path, start in prefix, common length */
-size_t g_sa1, g_sb1;          /* pair c+1: starts */
-size_t g_cur, g_i, g_mid, g_kx, g_itL, g_endq;
-int g_differ;
-const char *g_P, *g_Q, *g_a0, *g_b0, *g_it0;
-#include <igris/util/pathops.h>
+size_t g_cnt, g_done;         /* node pairs compared / consumed (compared equal and left) */
+size_t g_endq;                /* final prefix cursor */
+int g_differ;                 /* the walk ended at a differing pair */
+const char *g_P, *g_Q;
+#include "cxx/path_remove_prefix.c"
 
 void harness(void)
 {
     WIT(size_t, LP);
     WIT(size_t, LQ);
-    WIT(size_t, k);
-    WIT(size_t, kp);
-    WIT(size_t, kq);
-    WIT(size_t, c);
     WIT_ARR(char, cp, 8);
     WIT_ARR(char, cq, 8);
-    C19_STRING(P, LP, cp, (KF_C19_path_single_dot_overread == 1));
-    C19_STRING(Q, LQ, cq, (KF_C19_path_single_dot_overread == 1));
+    g_path_spare = (KF_C19_path_single_dot_overread == 1);
+    C19_PSTRING(P, 0, LP, cp, (KF_C19_path_single_dot_overread == 1));
+    C19_PSTRING(Q, 0, LQ, cq, (KF_C19_path_single_dot_overread == 1));
     /* known finding: one string empty, the other starting with a slash: the nodes compare equal (both empty), path_iterate("") returns
        NULL and the next round dereferences it */
     __CPROVER_assume(KF_C19_path_remove_prefix_null == 0 ? 1 : KF_C19_path_remove_prefix_null == 1
                          ? !((P[0] == 0 && Q[0] == '/') || (Q[0] == 0 && P[0] == '/'))
                          : ((P[0] == 0 && Q[0] == '/') || (Q[0] == 0 && P[0] == '/')));
-    g_LP = LP; g_LQ = LQ; g_k = k; g_kp = kp; g_kq = kq; g_c = c;
+    g_LP = LP; g_LQ = LQ;
+    g_cnt = 0; g_done = 0; g_differ = 0; g_endq = 0;
 
     const char *r = path_remove_prefix(P, Q);
 
     __CPROVER_assert(r != NULL && __CPROVER_same_object(r, P) && r >= P && (size_t)(r - P) <= LP, "remove_prefix: result inside path");
     size_t ro = (size_t)(r - P);
     __CPROVER_assert(g_endq <= LQ, "remove_prefix: prefix cursor inside prefix");
-    /* how the walk ended */
     if (g_differ)
-        __CPROVER_assert(g_done + 1 == g_cnt, "remove_prefix: stopped at the first node pair that differs");
+        __CPROVER_assert(g_done + 1 == g_cnt, "remove_prefix: stopped at the first node pair that differs, all earlier pairs compared equal");
     else
-        __CPROVER_assert(g_done == g_cnt && P[ro] == 0 && Q[g_endq] == 0, "remove_prefix: otherwise both strings are exhausted");
-    /* the consumed pair number c */
-    if (c < g_done) {
-        __CPROVER_assert(c != 0 || (g_sa == 0 && g_sb == 0), "remove_prefix: the first pair starts at the beginning of both strings");
-        __CPROVER_assert(g_sa + g_ci <= LP && g_sb + g_ci <= LQ && C19_PEND(P[g_sa + g_ci]) && C19_PEND(Q[g_sb + g_ci]), "remove_prefix: consumed nodes end together");
-        __CPROVER_assert(!(k < g_ci) || (P[g_sa + k] == Q[g_sb + k] && !C19_PEND(P[g_sa + k])), "remove_prefix: consumed nodes are equal byte for byte");
-        /* where the next pair starts: (g_sa1, g_sb1), or the final cursors when c is the last consumed pair and the walk ended by exhaustion */
-        size_t na = (c + 1 < g_cnt) ? g_sa1 : ro, nb = (c + 1 < g_cnt) ? g_sb1 : g_endq;
-        __CPROVER_assert(g_sa + g_ci <= na && na <= LP && g_sb + g_ci <= nb && nb <= LQ, "remove_prefix: the next pair starts behind the node");
-        __CPROVER_assert(!(g_sa + g_ci <= kp && kp < na) || C19_PSKIP(P, kp), "remove_prefix: only slashes / single dots between node and next node (path)");
-        __CPROVER_assert(!(g_sb + g_ci <= kq && kq < nb) || C19_PSKIP(Q, kq), "remove_prefix: only slashes / single dots between node and next node (prefix)");
-        __CPROVER_assert(!C19_PSKIPX(P + na) && !C19_PSKIPX(Q + nb), "remove_prefix: the next pair starts at a real component or at the terminator");
-    }
+        __CPROVER_assert(g_done == g_cnt && P[ro] == 0 && Q[g_endq] == 0, "remove_prefix: otherwise every pair compared equal and both strings are exhausted");
     CANARY("remove_prefix end reachable");
 }
